@@ -164,6 +164,11 @@ macro_rules! pairwise {
     };
 }
 
+pub static LEVEL_LIMIT: std::sync::atomic::AtomicI64 = std::sync::atomic::AtomicI64::new(3);
+fn max_level() -> i64 { LEVEL_LIMIT.load(std::sync::atomic::Ordering::SeqCst) }
+#[nutype(validate(greater_or_equal = 0, less_or_equal = max_level()), derive(Debug, Arbitrary))]
+struct Level(i64);
+
 fn bits_eq_vec(a: &[f64], b: &[f64]) -> bool {
     a.len() == b.len() && a.iter().zip(b).all(|(x, y)| x.to_bits() == y.to_bits())
 }
@@ -353,6 +358,31 @@ fn main() {
         let l: Vec<i64> = (0..3).map(|_| Lvl::default().into_inner()).collect();
         report("C03", "Lvl", "default_sanitized", l == vec![10, 10, 10] && Lvl::try_new(50).map(|t| t.into_inner()).ok() == Some(10), format!("{:?}", l));
         let _ = std::panic::take_hook();
+    }
+    // ------------------------------------------------------------ bounds are read when a value is made, not once
+    {
+        use arbitrary::{Arbitrary, Unstructured};
+        let draw = || -> std::collections::BTreeSet<i64> {
+            let mut seen = std::collections::BTreeSet::new();
+            for a in 0..=255u8 {
+                for b in [0u8, 1, 7, 255] {
+                    let bytes = [a, b, a ^ b, 3];
+                    if let Ok(v) = Level::arbitrary(&mut Unstructured::new(&bytes)) { seen.insert(v.into_inner()); }
+                }
+            }
+            seen
+        };
+        LEVEL_LIMIT.store(3, std::sync::atomic::Ordering::SeqCst);
+        let first = draw();
+        LEVEL_LIMIT.store(9, std::sync::atomic::Ordering::SeqCst);
+        let second = draw();
+        let ctor_follows = Level::try_new(7).is_ok() && Level::try_new(10).is_err();
+        LEVEL_LIMIT.store(1, std::sync::atomic::Ordering::SeqCst);
+        let third = draw();
+        let want = |hi: i64| (0..=hi).collect::<std::collections::BTreeSet<i64>>();
+        report("C14", "Level", "range_follows_bound_expression", ctor_follows && first == want(3) && second == want(9) && third == want(1),
+               format!("{:?} {:?} {:?}", first, second, third));
+        report("C09", "Level", "values_valid_under_current_bound", third.iter().all(|v| *v <= 1) && second.iter().all(|v| *v <= 9), String::new());
     }
     println!("zoo done");
 }
